@@ -69,3 +69,34 @@ Proof.
   destruct (api_history_continuous_unchunked c ops Hc Hch Hco Hops) as (_ & HR & _). fold st in HR.
   split; [|exact HR]. apply (roundtrip_of_refines_u c st _ s e Hc Hsc Hrule HR).
 Qed.
+
+(* ---------- several sessions (C11): a channel recorded by restarting the writer reads back as the
+   union of all sessions' samples.  Histories of block calls and forward restarts (each new session
+   begins at or after the end of every file period holding a recorded sample). *)
+From DRF Require Import Proofs.WriterSessions.
+
+Lemma sessions_keep_rate ops : forall c st,
+  let c' := fst (fold_left sstep_model ops (c, st)) in
+  c_n c' = c_n c /\ c_d c' = c_d c /\ c_fc c' = c_fc c /\ c_sc c' = c_sc c.
+Proof.
+  induction ops as [|op ops IH]; intros c st; cbn [fold_left fst]; [auto|].
+  destruct op as [bl vec|s']; cbn [sstep_model].
+  - apply IH.
+  - specialize (IH (with_start c s') (restart st)). cbn zeta in IH. cbn [with_start c_n c_d c_fc c_sc] in IH. exact IH.
+Qed.
+
+Theorem sessions_roundtrip c ops s e : vcfg c -> 0 < c_sc c -> (c_sc c * 1000) mod c_fc c = 0 ->
+  c_chunk c = true -> ok_history (c, spec_init) ops ->
+  let '(c', st') := fold_left sstep_model ops (c, init_state) in
+  let '(_, s') := fold_left sstep_spec ops (c, spec_init) in
+  read ExactRational (rc_of c') (map (to_rfile c') (all_files st')) s e = runs (s_map s') s e.
+Proof.
+  intros Hc Hsc Hrule Hch Hok.
+  pose proof (sessions_refine ops c init_state spec_init Hc Hch
+                ltac:(split; [apply Inv_init|]; split; [reflexivity|]; split; [reflexivity|exact I]) Hok) as H.
+  pose proof (sessions_keep_rate ops c init_state) as Hk. cbn zeta in Hk.
+  destruct (fold_left sstep_model ops (c, init_state)) as [c' st'].
+  destruct (fold_left sstep_spec ops (c, spec_init)) as [c'' s'].
+  destruct H as (_ & Hc' & HR). cbn [fst] in Hk. destruct Hk as (Hn & Hd & Hf & Hs).
+  apply roundtrip_of_refines; try assumption; [rewrite Hs; exact Hsc|rewrite Hs, Hf; exact Hrule].
+Qed.
